@@ -26,6 +26,14 @@ pub(crate) fn check_rabin_params(
         )
         .attach_context("chunk_size", chunk_size.to_string()));
     }
+    if chunk_min_size < constants::BUF_SIZE {
+        return Err(RusticError::new(
+            ErrorKind::Unsupported,
+            "Chunk min size must be at least {buf_size} for the rabin chunker. chunk min size = {chunk_min_size}.",
+        )
+        .attach_context("buf_size", constants::BUF_SIZE.to_string())
+        .attach_context("chunk_min_size", chunk_min_size.to_string()));
+    }
     if chunk_min_size > chunk_size {
         return Err(RusticError::new(
             ErrorKind::Unsupported,
